@@ -665,9 +665,123 @@ def compound_interference_pass(ctx):
                         {'compound_interference': k, 'name': name})
 
 
+def editing_domain_pass(ctx):
+    """the same commands through an `EditingDomain` (the stack behind `domain.execute / undo / redo`): a model in a resource
+    of the domain's resource set; words of Set / Add / Remove / Move / Delete / Compound on features without opposite; after
+    each letter the snapshot history must agree (undo = the state before, redo = the state after); a command on an object
+    outside the domain is refused and changes nothing"""
+    from pyecore import ecore as E
+    from pyecore import commands as C
+    from pyecore.resources import URI
+    for k in range(40 if ctx.quick() else 600):
+        rng = common.sub_rng(ctx.seed, 'C06', 'domain', k)
+        A = E.EClass('A')
+        A.eStructuralFeatures.extend([E.EAttribute('name', E.EString), E.EAttribute('nums', E.EInt, upper=-1, unique=False),
+                                      E.EReference('bs', A, upper=-1), E.EReference('one', A),
+                                      E.EReference('kids', A, upper=-1, containment=True)])
+        dom = C.EditingDomain()
+        res = dom.create_resource(URI(f'/nonexistent/verif_c06_domain_{k}.xmi'))
+        root = A(name='root')
+        res.append(root)
+        objs = [root]
+        for i in range(rng.randint(2, 5)):
+            o = A(name=f'o{i}')
+            rng.choice(objs).kids.append(o)
+            objs.append(o)
+        outsider = A(name='outside')
+
+        def snap():
+            out = []
+            for o in objs + [outsider]:
+                out.append((o.name, list(o.nums), [x.name for x in o.bs], o.one.name if o.one is not None else None,
+                            [x.name for x in o.kids], o.eContainer().name if o.eContainer() is not None else None,
+                            o.eResource is res))
+            return out
+
+        def gen():
+            o = rng.choice(objs)
+            j = rng.random()
+            if j < .2:
+                return C.Set(o, 'name', rng.choice(['x', 'y', o.name]))
+            if j < .35:
+                return C.Set(o, 'one', rng.choice(objs + [None]))
+            if j < .55:
+                return C.Add(o, 'nums', rng.randint(0, 3), index=rng.choice([None, 0, -1, 9]))
+            if j < .7:
+                t = rng.choice(objs)
+                return C.Add(o, 'bs', t) if all(t is not x for x in o.bs) else C.Remove(o, 'bs', value=t)
+            if j < .8 and len(o.nums):
+                return C.Remove(o, 'nums', index=rng.randrange(-len(o.nums), len(o.nums)))
+            if j < .9 and len(o.nums) > 1:
+                return C.Move(o, 'nums', from_index=rng.randrange(len(o.nums)), to_index=rng.randrange(-1, len(o.nums) + 1))
+            leaf = [x for x in objs if x is not root and not len(x.kids)]
+            if leaf and j < .96:
+                return C.Delete(rng.choice(leaf))
+            return C.Compound(C.Set(o, 'name', 'c'), C.Add(rng.choice(objs), 'nums', 7))
+        hist = [snap()]      # hist[i] = state with i commands applied
+        applied = 0
+        stack = dom._EditingDomain__stack
+        letters = []
+        for step in range(rng.randint(4, 10)):
+            c = rng.random()
+            before = snap()
+            if c < .55:
+                cmd = gen()
+                letters.append(f'execute {cmd!r}'[:80])
+                try:
+                    dom.execute(cmd)
+                except Exception:
+                    if snap() != before:
+                        ctx.violate({'clause': 'refused-changed', 'cmd': 'domain'}, f'a command the editing domain refused changed the model ({letters})',
+                                    {'domain': k, 'letters': letters})
+                        return
+                    continue
+                hist = hist[:applied + 1] + [snap()]
+                applied = stack.stack_index + 1
+            elif c < .65:
+                cmd = C.Set(outsider, 'name', 'changed')
+                letters.append('execute on an object outside the domain')
+                try:
+                    dom.execute(cmd)
+                    refused = False
+                except ValueError:
+                    refused = True
+                if not refused or snap() != before:
+                    ctx.violate({'clause': 'outside-domain', 'cmd': 'domain'}, f'a command on an object outside the editing domain was not refused ({letters})',
+                                {'domain': k, 'letters': letters})
+                    return
+                continue
+            elif c < .85:
+                letters.append('undo')
+                try:
+                    dom.undo()
+                except Exception:
+                    pass
+                applied = stack.stack_index + 1        # (the cursor tells how many commands are applied now)
+                if not 0 <= applied < len(hist) or snap() != hist[applied]:
+                    ctx.violate({'clause': 'undo', 'cmd': 'domain'}, f'undo: the model after undo through the editing domain is not the one before the command ({letters})',
+                                {'domain': k, 'letters': letters})
+                    return
+            else:
+                letters.append('redo')
+                try:
+                    dom.redo()
+                except Exception:
+                    pass
+                applied = stack.stack_index + 1
+                if not 0 <= applied < len(hist) or snap() != hist[applied]:
+                    ctx.violate({'clause': 'redo', 'cmd': 'domain'}, f'redo: the model after redo through the editing domain is not the one after the command ({letters})',
+                                {'domain': k, 'letters': letters})
+                    return
+            ctx.evaluations += 1
+        ctx.nontriv(('domain', k))
+        ctx.count('domain/words')
+
+
 def run(ctx):
     common.use_repo()
     compound_interference_pass(ctx)
+    editing_domain_pass(ctx)
     n = 600 if ctx.quick() else 12000
     nl = 14 if ctx.quick() else 22
     ctx.rule = (f'{n} words over {{execute(Set|Add|Remove|Move|Delete|Compound), undo, redo}} (<= {nl} letters, about 45% undo/redo) from a '
